@@ -181,6 +181,36 @@ let handle kind a =
               let (((f, mr), mp), t) = mate_view r in
               Printf.sprintf "%s,%s,%s,%s" (dec_of_n f) (on mr) (op mp) (dec_of_z t)) out))
       end
+  | "sblk" ->
+      (* a.(1) = type:id:csize:rsize descriptors, slices separated by '/', first group = compression header *)
+      (match split_on '/' a.(1) with
+       | _ :: slices ->
+           let one s =
+             let bl = List.map (fun b -> match split_on ':' b with
+               | [ty; id; _; raw] -> (int_of_string ty, int_of_string id, int_of_string raw)
+               | _ -> failwith "sblk block") (split_on ',' s) in
+             match bl with
+             | _ :: (_, _, core_len) :: ext ->
+                 let present = List.map (fun (_, id, raw) -> (id, raw)) ext in
+                 let ids = List.sort_uniq compare (List.init 28 (fun i -> i + 1) @ List.map fst present) in
+                 let bufs = List.map (fun id ->
+                   (n_of_int id, n_of_int (try List.assoc id present with Not_found -> 0))) ids in
+                 let blocks = sb_blocks (n_of_int core_len) bufs in
+                 let flen = match sb_header_bytes bufs with
+                   | None -> "Err"
+                   | Some by ->
+                       (match sb_read_header (by @ [n_of_int 255]) with
+                        | Some ((c, l), [_]) when c = sb_count bufs && l = sb_ids bufs ->
+                            string_of_int (List.length by)
+                        | _ -> "ReadBack") in
+                 Printf.sprintf "%s|%s|%s|%s" (dec_of_n (sb_count bufs))
+                   (String.concat "," (List.map dec_of_n (sb_ids bufs)))
+                   (String.concat "," (List.map (fun d ->
+                      Printf.sprintf "%s:%s:%s" (dec_of_n d.sd_type) (dec_of_n d.sd_id) (dec_of_n d.sd_raw)) blocks))
+                   flen
+             | _ -> failwith "sblk slice" in
+           Some (String.concat "/" (List.map one slices))
+       | [] -> None)
   | _ -> None
 
 let () = run_driver handle
